@@ -226,3 +226,166 @@ pub fn check_pipe_foreign_fd(count: u64) {
     }
     assert!(r.is_ok() && ax.state.regs[RAX] == (if is_write { 1 } else { 0 }) && same, "OBL|C14|foreign-descriptors-are-left-to-other-hooks");
 }
+
+// ------------------------------------------------------------------------------------------------ pipes, one call at a time
+// Bounded stand-in for the Verus pipe unit (used when Verus cannot take a handler's text on a changed tree): ONE call of
+// the real read / write handler, through the real hook runner, from a state with one pipe (7 -> 9) whose buffer holds
+// `n` symbolic bytes (n concrete per harness) - the per-call contracts of the Verus unit, on concrete sizes.
+fn pipe_state(n: usize) -> (Axecutor, [u8; 4], [u8; AREA]) {
+    let mut ax = empty_ax();
+    let _ = ax.handle_syscalls_impl(vec![Syscall::Pipe]);
+    let q: [u8; 4] = kani::any();
+    let mut v: Vec<u8> = Vec::new();
+    let mut k = 0;
+    while k < n {
+        v.push(q[k]);
+        k += 1;
+    }
+    ax.state.syscalls.verif_add_pipe(7, 9, v);
+    let src: [u8; AREA] = kani::any();
+    guest_area(&mut ax, 0, 0x5000, src);
+    (ax, q, src)
+}
+
+/// read(fd, 0x5000 + off, count) with `n` bytes buffered; fd symbolic (the read end, the write end or anything else)
+pub fn check_pipe_read_call(n: usize, count: u64) {
+    let (mut ax, q, src) = pipe_state(n);
+    let fd: u64 = kani::any();
+    let writable: bool = kani::any();
+    if !writable {
+        ax.state.areas[0].access = 1;
+    }
+    ax.state.regs[RAX] = 0;
+    ax.state.regs[RDI] = fd;
+    ax.state.regs[RSI] = 0x5004;
+    ax.state.regs[RDX] = count;
+    let r = run_syscall_hooks(&mut ax);
+    let m = if count < n as u64 { count as usize } else { n };
+    let d = ax.state.areas[0].data;
+    let rest = ax.state.syscalls.verif_pipe_content(7);
+    let rest_len = match &rest {
+        Some(v) => v.len(),
+        None => 99,
+    };
+    kani::cover!(r.is_ok() && fd == 7, "COVER|read-handled");
+    kani::cover!(fd != 7, "COVER|foreign");
+    let mut mem_same = true;
+    let mut k = 0;
+    while k < AREA {
+        mem_same = mem_same && d[k] == src[k];
+        k += 1;
+    }
+    let sel: u8 = kani::any();
+    match sel {
+        0 => {
+            // not a read end: left to other hooks, nothing changes
+            if fd != 7 {
+                assert!(r.is_ok() && ax.state.regs[RAX] == 0 && mem_same && rest_len == n, "OBL|C14|foreign-descriptors-are-left-to-other-hooks");
+            }
+        }
+        1 => {
+            // (a guest buffer the handler cannot store to makes the call fail, also for zero bytes: the property does not
+            //  say otherwise, and the Verus contract allows Err with nothing changed)
+            if fd == 7 && writable {
+                assert!(r.is_ok() && ax.state.regs[RAX] == m as u64, "OBL|C14|read-returns-min-of-requested-and-available");
+            }
+        }
+        2 => {
+            if fd == 7 && r.is_ok() {
+                // the first m buffered bytes arrive in order, nothing else in the guest buffer changes
+                let mut okk = true;
+                let mut k = 0;
+                while k < AREA {
+                    if k >= 4 && k < 4 + m {
+                        okk = okk && d[k] == q[k - 4];
+                    } else {
+                        okk = okk && d[k] == src[k];
+                    }
+                    k += 1;
+                }
+                assert!(okk, "OBL|C14|bytes-come-out-in-order-without-loss-or-duplication");
+            }
+        }
+        3 => {
+            if fd == 7 && r.is_ok() {
+                // exactly the unread tail stays buffered
+                let mut okk = rest_len == n - m;
+                if let Some(v) = &rest {
+                    let mut k = 0;
+                    while k < 4 {
+                        if k < v.len() && m + k < 4 {
+                            okk = okk && v[k] == q[m + k];
+                        }
+                        k += 1;
+                    }
+                }
+                assert!(okk, "OBL|C14|read-removes-exactly-the-returned-bytes");
+            }
+        }
+        4 => {
+            if fd == 7 && !r.is_ok() {
+                // a failing guest store loses nothing
+                let mut okk = rest_len == n && mem_same;
+                if let Some(v) = &rest {
+                    let mut k = 0;
+                    while k < 4 {
+                        if k < v.len() {
+                            okk = okk && v[k] == q[k];
+                        }
+                        k += 1;
+                    }
+                }
+                assert!(okk, "OBL|C14|failed-read-changes-nothing");
+            }
+        }
+        _ => {}
+    }
+}
+
+/// write(fd, 0x5000, count) with `n` bytes already buffered
+pub fn check_pipe_write_call(n: usize, count: u64) {
+    let (mut ax, q, src) = pipe_state(n);
+    let fd: u64 = kani::any();
+    ax.state.regs[RAX] = 1;
+    ax.state.regs[RDI] = fd;
+    ax.state.regs[RSI] = 0x5000;
+    ax.state.regs[RDX] = count;
+    let r = run_syscall_hooks(&mut ax);
+    let now = ax.state.syscalls.verif_pipe_content(7);
+    let now_len = match &now {
+        Some(v) => v.len(),
+        None => 99,
+    };
+    kani::cover!(r.is_ok() && fd == 9, "COVER|write-handled");
+    kani::cover!(fd != 9, "COVER|foreign");
+    let sel: u8 = kani::any();
+    match sel {
+        0 => {
+            if fd != 9 {
+                assert!(r.is_ok() && ax.state.regs[RAX] == 1 && now_len == n, "OBL|C14|foreign-descriptors-are-left-to-other-hooks");
+            }
+        }
+        1 => {
+            if fd == 9 {
+                assert!(r.is_ok() && ax.state.regs[RAX] == count, "OBL|C14|write-returns-count");
+            }
+        }
+        2 => {
+            if fd == 9 && r.is_ok() {
+                // old bytes first, then the count guest bytes in order
+                let mut okk = now_len == n + count as usize;
+                if let Some(v) = &now {
+                    let mut k = 0;
+                    while k < 8 {
+                        if k < v.len() {
+                            okk = okk && (if k < n { v[k] == q[k] } else { k - n < AREA && v[k] == src[k - n] });
+                        }
+                        k += 1;
+                    }
+                }
+                assert!(okk, "OBL|C14|write-appends-exactly-the-guest-bytes");
+            }
+        }
+        _ => {}
+    }
+}
